@@ -208,7 +208,8 @@ def m3_table(ctx):
     if len(money_res) != 1 or len(number_res) != 1:
         raise AnchorLost('MoneyItem::calculate: expected one MoneyItem and one NumberItem result, found %d/%d' % (len(money_res), len(number_res)))
     i, s = money_res[0]
-    cur = b.expr(s['ops'][1])
+    from ..facts import inline_calls
+    cur = inline_calls(ctx.facts, b.expr(s['ops'][1]), depth=1)        # `self.get_currency()` is `self.1.clone()`
     curs = set(render(a) for a, _ in alternatives(b, cur))
     if curs != {'self.1'}:
         ctx.finding('M3', 'calculate/result-currency', 'the result currency is %s; it must be the left operand\'s (self.1)' % sorted(curs), site=s['loc'])
